@@ -1,6 +1,7 @@
 package main
 
 import (
+	"go/token"
 	"fmt"
 	"go/ast"
 	"go/constant"
@@ -224,6 +225,40 @@ func checkC19(p *Prog, r *Report) {
 			}
 		}
 		r.Check(n >= 1, kp("WIRE", "setupUpgradeStoreLoaders→UpgradeStoreLoader"), "the planned upgrade's StoreUpgrades are applied by the store loader", p.FnPos(fn), "UpgradeStoreLoader used", "no UpgradeStoreLoader call")
+		// the loader gets exactly the matched descriptor's own StoreUpgrades: &u.StoreUpgrades under upgradeInfo.Name == u.UpgradeName.
+		// Anything else (an accumulated or rebuilt set) re-adds stores that already hold data — the IAVL store refuses to load them.
+		for _, cs := range callSites(fn) {
+			if !strings.HasSuffix(cs.Name, "upgrade/types.UpgradeStoreLoader") {
+				continue
+			}
+			args := cs.Instr.Common().Args
+			okArg, why := false, "the second argument is not the address of a descriptor's StoreUpgrades field"
+			if len(args) == 2 {
+				if fa2, ok := args[1].(*ssa.FieldAddr); ok && fieldName(fa2.X.Type(), fa2.Field) == "StoreUpgrades" {
+					base := fa2.X
+					why = "no dominating comparison of the same descriptor's UpgradeName with the plan name read from disk"
+					for _, b := range fn.Blocks {
+						for _, in := range b.Instrs {
+							bo, ok := in.(*ssa.BinOp)
+							if !ok || bo.Op != token.EQL {
+								continue
+							}
+							for _, opd := range []ssa.Value{bo.X, bo.Y} {
+								if u, ok := opd.(*ssa.UnOp); ok && u.Op == token.MUL {
+									if nf, ok := u.X.(*ssa.FieldAddr); ok && nf.X == base && fieldName(nf.X.Type(), nf.Field) == "UpgradeName" {
+										if iff, ok := b.Instrs[len(b.Instrs)-1].(*ssa.If); ok && iff.Cond == bo && b.Succs[0].Dominates(cs.Instr.Block()) {
+											okArg = true
+										}
+									}
+								}
+							}
+						}
+					}
+				}
+			}
+			r.Check(okArg, kp("ORIGIN", "setupUpgradeStoreLoaders#loader-gets-the-matched-descriptor's-StoreUpgrades"), "the store loader is given the matched descriptor's own StoreUpgrades (not an accumulated or rebuilt set)", p.Pos(cs.Instr.Pos()),
+				"UpgradeStoreLoader(height, &u.StoreUpgrades) under upgradeInfo.Name == u.UpgradeName", why+": stores that already exist would be added again at the upgrade height and the node cannot load its database")
+		}
 	}
 	// D3 migrations
 	for _, mod := range []string{"x/aol", "x/did", "x/burn", "x/pnft"} {
@@ -292,6 +327,59 @@ func checkC19(p *Prog, r *Report) {
 			}
 		}
 		return "", false
+	}
+	// D4b the upgrade block cannot fail because of custom-module state: code of an upgrade package that (transitively) reads
+	// aol/did/pnft entries must not create errors or panic. A handler error aborts the upgrade block on every node; whether a
+	// state-dependent check fails depends on the chain's history, which the release cannot know.
+	isRead := func(f *ssa.Function) (string, bool) {
+		if a := aol.acc[f]; a != nil && (a.Op == "Get" || a.Op == "Has" || a.Op == "Iterator") {
+			return "AOL " + a.Family + " (" + FuncName(f) + ")", true
+		}
+		if did.getters[f] {
+			return "DID (" + FuncName(f) + ")", true
+		}
+		if _, ok := isNftKeeperMethod(f); ok {
+			return "PNFT (x/nft keeper " + f.Name() + ")", true
+		}
+		if InPkgs(f, "x/pnft/keeper") && !p.IsGenerated(f) && f.Signature.Recv() != nil {
+			return "PNFT (" + FuncName(f) + ")", true
+		}
+		return "", false
+	}
+	for uname, fns := range upgradeHandlerFns(p, w) {
+		reach := p.ReachFrom(fns, func(f *ssa.Function) bool { return InModule(f) || pkgPathOf(f) == nftKeeperPath })
+		read := ""
+		for _, f := range reach.Order {
+			if what, ok := isRead(f); ok {
+				read = what + " via " + reach.Chain(f)
+				break
+			}
+		}
+		fails := ""
+		var all []*ssa.Function
+		for _, f := range fns {
+			all = append(all, f)
+			all = append(all, f.AnonFuncs...)
+		}
+		for _, f := range all {
+			for _, b := range f.Blocks {
+				for _, in := range b.Instrs {
+					if _, ok := in.(*ssa.Panic); ok {
+						fails = "panic in " + FuncName(f) + " at " + p.Pos(in.Pos())
+					}
+				}
+			}
+			for _, cs := range callSites(f) {
+				n := cs.Name
+				if n == "fmt.Errorf" || n == "errors.New" || strings.HasSuffix(n, "errors.Wrap") || strings.HasSuffix(n, "errors.Wrapf") || strings.HasSuffix(n, "errors.Register") || strings.Contains(n, "errors.Error).Wrap") {
+					fails = "error created by " + n + " in " + FuncName(f) + " at " + p.Pos(cs.Instr.Pos())
+				}
+			}
+		}
+		bad := read != "" && fails != ""
+		r.Check(!bad, kp("REACH", "upgrade:"+uname+"#no-state-dependent-failure"), "upgrade code that reads custom-module data creates no error and does not panic (the upgrade block must not fail on some histories)", "app/upgrades",
+			fmt.Sprintf("reads custom data: %v; creates errors/panics: %v", read != "", fails != ""),
+			fmt.Sprintf("upgrade %s reads %s and can fail on its own account (%s): a chain whose history does not meet the check halts at the upgrade height", uname, read, fails))
 	}
 	for uname, fns := range upgradeHandlerFns(p, w) {
 		reach := p.ReachFrom(fns, func(f *ssa.Function) bool { return InModule(f) || pkgPathOf(f) == nftKeeperPath })
